@@ -906,11 +906,15 @@ func (s *session) readDisconnected(oldConn net.Conn, err error) {
 	verifGate("disc.redial", s)
 	if !s.redialForClient(oldConn) {
 		verifGate("final.store", s)
-		s.changeStatus(statusPassiveClosed)
-		s.notifyClosed()
-		verifGate("disc.hook", s)
-		verifEvent("disc", s, 2, 0)
-		s.peer.pluginContainer.postDisconnect(s)
+		// Only end the session if it is still in the state this reader left
+		// it in: a Call or Push may have redialed successfully since the
+		// redial was refused, and that session must not be declared closed.
+		if s.tryChangeStatus(statusPassiveClosed, statusPassiveClosing, statusRedialFailed) {
+			s.notifyClosed()
+			verifGate("disc.hook", s)
+			verifEvent("disc", s, 2, 0)
+			s.peer.pluginContainer.postDisconnect(s)
+		}
 	}
 }
 
